@@ -161,6 +161,9 @@ private :
     void parseSchemaLocation(const XMLCh* const schemaLocationStr, bool ignoreLoadSchema = false);
     void resolveSchemaGrammar(const XMLCh* const loc, const XMLCh* const uri, bool ignoreLoadSchema = false);
     bool switchGrammar(const XMLCh* const newGrammarNameSpace);
+    // The skipDTDValidation setting is ignored if no schema processing is
+    // taking place; computed at use so that a parse never overwrites the setting.
+    bool skipDTDValidation() const;
     bool laxElementValidation(QName* element, ContentLeafNameTypeVector* cv,
                               const XMLContentModel* const cm,
                               const XMLSize_t parentElemDepth);
@@ -287,6 +290,11 @@ private :
     RefHash2KeysTableOf<SchemaInfo>*        fSchemaInfoList;
     RefHash2KeysTableOf<SchemaInfo>*        fCachedSchemaInfoList;
 };
+
+inline bool IGXMLScanner::skipDTDValidation() const
+{
+    return fSkipDTDValidation && fDoSchema;
+}
 
 inline const XMLCh* IGXMLScanner::getName() const
 {
